@@ -61,6 +61,10 @@ void reb_calculate_acceleration(struct reb_simulation* r){
         r->gravity = REB_GRAVITY_BASIC;
 
     }
+    if (r->integrator != REB_INTEGRATOR_TRACE && r->gravity == REB_GRAVITY_TRACE){
+        reb_simulation_warning(r,"You are using the TRACE gravity routine with a non-TRACE integrator. This will probably lead to unexpected behaviour. REBOUND is now setting the gravity routine back to REB_GRAVITY_BASIC. To avoid this warning message, consider manually setting the gravity routine after changing integrators.");
+        r->gravity = REB_GRAVITY_BASIC;
+    }
     struct reb_particle* const particles = r->particles;
     const int N = r->N;
     const int N_active = r->N_active;
